@@ -15,7 +15,7 @@ import (
 var numPool = []float64{0, math.Copysign(0, -1), 1, -1, 2, 3, 0.5, -0.5, 1.5, -1.5, 2.5, -2.5, 0.49999999999999994, 10, 9,
 	math.NaN(), math.Inf(1), math.Inf(-1), 5e-324, -5e-324, 2.2250738585072014e-308, 1e-7, 1e21, 1e300, -1e300,
 	9007199254740991, 9007199254740992, 9007199254740993, 9223372036854775807, 9223372036854775808, 18446744073709551616, -9223372036854775808,
-	0.1 + 0.2, 1.7976931348623157e308, 4.9, -4.9, 123456789.125, 1e15, 1e16, 4503599627370496.5, 4503599627370497}
+	0.1 + 0.2, 0.3, 1.0000000000001, 1.0000000000000002, 1e15 + 1, 123456789.12500001, 1.7976931348623157e308, 4.9, -4.9, 123456789.125, 1e15, 1e16, 4503599627370496.5, 4503599627370497}
 
 func genFloat(t *rapid.T, label string) float64 {
 	if rapid.IntRange(0, 3).Draw(t, label+"Pool") != 0 {
